@@ -347,7 +347,7 @@ func shapeFamily(maxM int, pol leafPolicy, stress bool, rootSorts string) []stri
 	// the alias spellings of and/or go through the same control machinery (the compiler classifies
 	// nodes by name): the all-variable variant of every shape is also run with && / || and & / |
 	aliases := func(v string) {
-		if !strings.Contains(v, "(and ") && !strings.Contains(v, "(or ") {
+		if noAliasVariants || (!strings.Contains(v, "(and ") && !strings.Contains(v, "(or ")) {
 			return
 		}
 		add(strings.ReplaceAll(strings.ReplaceAll(v, "(and ", "(&& "), "(or ", "(|| "))
@@ -387,6 +387,16 @@ func shapeFamily(maxM int, pol leafPolicy, stress bool, rootSorts string) []stri
 		}
 	}
 	return out
+}
+
+// noAliasVariants switches the && / || / & / | spelling variants off (set by the properties for
+// which the spelling is irrelevant: totality, footprint, events, formatting).
+var noAliasVariants bool
+
+func withoutAliases(f func() []Unit) []Unit {
+	noAliasVariants = true
+	defer func() { noAliasVariants = false }()
+	return f()
 }
 
 func allOptSets() []string {
